@@ -9,7 +9,7 @@ import (
 	"verif/harness/kit"
 )
 
-var outcomes = []string{"na", "na", "na", "ok", "ok", "ok", "ok", "nil", "rej401", "rej403", "rej418", "rej503", "plain", "plainctx", "plaindl"}
+var outcomes = []string{"na", "na", "na", "ok", "ok", "ok", "ok", "nil", "rej401", "rej403", "rej418", "rej503", "plain", "plainctx", "plaindl", "okro", "okro"}
 
 var authzKinds = []string{"none", "none", "allow", "allow", "deny", "deny409", "deny401"}
 
@@ -31,9 +31,12 @@ func genAlts(t *rapid.T, maxAlts int) []Alt {
 			sc := []string{}
 			for j := 0; j < ns; j++ {
 				// a scope is either private to (alternative, scheme) or shared between alternatives
-				if rapid.IntRange(0, 3).Draw(t, "shared") == 0 {
+				switch k := rapid.IntRange(0, 5).Draw(t, "shared"); {
+				case k == 0:
 					sc = append(sc, fmt.Sprintf("shared%d", j))
-				} else {
+				case k == 1:
+					sc = append(sc, fmt.Sprintf("adm%d", j)) // the scope a read-only credential ("okro") is refused for
+				default:
 					sc = append(sc, fmt.Sprintf("s%d%s%d", i, s, j))
 				}
 			}
@@ -181,6 +184,9 @@ func GenStack(t *rapid.T) StackCase {
 		if rapid.IntRange(0, 1).Draw(t, "damaged") == 1 {
 			q.MissingQ = rapid.IntRange(0, 2).Draw(t, "missing-q") == 0
 			q.BadCT = rapid.IntRange(0, 2).Draw(t, "bad-content-type") == 0
+			if q.BadCT {
+				q.BadCTText = rapid.SampledFrom([]string{"", "", "application/json; charset", "application(", "/json", "application/json; a=1; a=2"}).Draw(t, "bad-content-type-text")
+			}
 			q.BadAccept = rapid.IntRange(0, 2).Draw(t, "bad-accept") == 0
 			q.BadBody = rapid.IntRange(0, 2).Draw(t, "bad-body") == 0
 		}
@@ -222,7 +228,7 @@ func ClassifyStack(c StackCase) (bool, []string) {
 		for _, d := range []struct {
 			name string
 			on   bool
-		}{{"damage:missing-query", q.MissingQ}, {"damage:content-type", q.BadCT}, {"damage:accept", q.BadAccept}, {"damage:body", q.BadBody}} {
+		}{{"damage:missing-query", q.MissingQ}, {"damage:content-type", q.BadCT}, {"damage:content-type that is no media type", q.BadCT && q.BadCTText != ""}, {"damage:accept", q.BadAccept}, {"damage:body", q.BadBody}} {
 			if d.on {
 				labels = append(labels, d.name)
 			}
